@@ -143,6 +143,10 @@ def check(ctx):
         ctx.fail("C04.b", "%s:cleanup-escapes" % lib.fkey(body), body.loc(b), desc)
     ctx.touch(None, states=L.states)
 
+    # the terminal consumers themselves: Cleanup::run calls the stored fn exactly once when present,
+    # Setup::run calls the stored fn exactly once with its own reactor; the constructors store what they are given
+    carriers(ctx, prog)
+
     # ---- C04.c every end_* clears every flag its start_* set (shared with C03.a / C03.b) ----
     import c03
     n = core.reuse(ctx, c03, ["C03.a", "C03.b"], "C04.c")
@@ -235,3 +239,63 @@ def zero_only_on_taken_none(body, L, res):
     ev = L.events.get((body.path, res.key()), {})
     w = lib.path_to_return_avoiding(body, [0], set(ev) | set(none_arms))
     return w is None
+
+
+def indirect_calls(body):
+    """call terminators whose callee is a value (fn pointer): [(block, term, origins of the callee operand)]"""
+    out = []
+    for b in sorted(body.reachable):
+        t = body.blocks[b]["term"]
+        if t["k"] == "call" and op_fn(t["func"]) is None and mir.op_closure_const(t["func"]) is None:
+            out.append((b, t, origins(body, t["func"])))
+    return out
+
+
+def carriers(ctx, prog):
+    try:
+        crun = A.method(prog, "SystemCommandCleanup", "run")
+        cnew = A.method(prog, "SystemCommandCleanup", "new")
+        srun = A.method(prog, "SystemCommandSetup", "run")
+        snew = A.method(prog, "SystemCommandSetup", "new")
+    except mir.AnchorLost as e:
+        ctx.fail("C04.b", "anchor-lost:setup/cleanup carriers", "", str(e))
+        return
+    for m in (crun, cnew, srun, snew):
+        ctx.touch(m)
+    # Cleanup::run
+    ic = indirect_calls(crun)
+    okc = len(ic) == 1 and all(o[0] == "arg" and o[1] == 1 and ".cleanup" in o for o in ic[0][2]) if ic else False
+    if okc:
+        sws = [(sb, pl, tg, ow) for sb, pl, tg, ow in lib.discr_switches(crun) if pl["l"] == 1]
+        okc = len(sws) == 1
+        if okc:
+            sb, pl, tg, ow = sws[0]
+            some_t = tg.get(1)
+            cnt, _, _ = lib.event_counts(crun, [ic[0][0]], start=some_t) if some_t is not None else ({0}, None, 0)
+            okc = some_t is not None and crun.dominates(some_t, ic[0][0]) and cnt == {1}
+    ctx.check(okc, "C04.b", "SystemCommandCleanup::run:calls-stored-fn-once-when-present", "%s:%d" % (crun.file, crun.line),
+              "Some(f) arm calls f(world) exactly once", "SystemCommandCleanup::run does not call the stored cleanup exactly once on the Some arm")
+    agg = [st["rv"]["agg"] for b, i, st in cnew.iter_stmts() if st["k"] == "assign" and "agg" in st["rv"] and st["rv"]["agg"].get("adt", "").endswith("::SystemCommandCleanup")]
+    okn = len(agg) == 1
+    if okn:
+        inner = origins(cnew, agg[0]["ops"][0])
+        okn = False
+        for o in inner:
+            if o[0] == "agg":
+                a2 = cnew.blocks[o[1]]["stmts"][o[2]]["rv"]["agg"]
+                okn = a2.get("vname") == "Some" and lib.originates_from_arg(cnew, a2["ops"][0], 1)
+    ctx.check(okn, "C04.b", "SystemCommandCleanup::new:stores-Some(cleanup)", "%s:%d" % (cnew.file, cnew.line), "", "SystemCommandCleanup::new does not store Some(<its argument>)")
+    # Setup::run
+    isr = indirect_calls(srun)
+    oks = len(isr) == 1
+    if oks:
+        b, t, os_ = isr[0]
+        cnt, _, _ = lib.event_counts(srun, [b])
+        oks = cnt == {1} and all(o[0] == "arg" and o[1] == 1 and o[-1] == ".setup" for o in os_) and len(t["args"]) == 2 \
+            and all(o[0] == "arg" and o[1] == 1 and o[-1] == ".reactor" for o in origins(srun, t["args"][1]))
+    ctx.check(oks, "C04.b", "SystemCommandSetup::run:calls-stored-fn-once-with-own-reactor", "%s:%d" % (srun.file, srun.line),
+              "(self.setup)(world, self.reactor) exactly once", "SystemCommandSetup::run does not call its stored setup exactly once with its own reactor")
+    agg = [st["rv"]["agg"] for b, i, st in snew.iter_stmts() if st["k"] == "assign" and "agg" in st["rv"] and st["rv"]["agg"].get("adt", "").endswith("::SystemCommandSetup")]
+    okn = len(agg) == 1 and lib.originates_from_arg(snew, agg[0]["ops"][agg[0]["fields"].index("reactor")], 1) \
+        and lib.originates_from_arg(snew, agg[0]["ops"][agg[0]["fields"].index("setup")], 2) if agg else False
+    ctx.check(okn, "C04.b", "SystemCommandSetup::new:stores-its-arguments", "%s:%d" % (snew.file, snew.line), "", "SystemCommandSetup::new does not store (reactor, setup) as given")
